@@ -77,13 +77,15 @@ def se_dump_text(T, opts=None):
                 edges.append((eid, vid, other) if r.random() < 0.5 else (eid, other, vid))
                 gt[eid] = 1.0
             made.append(vid)
+    sep = "\t" if opts.get("tabs") else "  "
+    fmt = (lambda z: "%.6e" % z) if opts.get("sci") and all(abs(c) < 9000 for p_ in verts.values() for c in p_) else repr
     for vid in (sorted(verts) if not opts.get("keep_order") else list(verts)):
         x, y = verts[vid]
-        out.append(f"  {vid}   {x!r}  {y!r}")
+        out.append(f"{sep}{vid}{sep} {fmt(x)}{sep}{fmt(y)}")
     out.append("")
     out.append("edges  ")
     for eid, a, b in (sorted(edges) if not opts.get("keep_order") else edges):
-        out.append(f"  {eid}       {a}  {b}      density {gt[eid]!r} ")
+        out.append(f"{sep}{eid}{sep}     {a}{sep}{b}{sep}    density {gt[eid]!r} ")
     out.append("")
     out.append("faces    /* edge loop */      ")
     elook = {}
